@@ -124,14 +124,14 @@ theorem try_split (i : Nat) (b c f : Stmt) (env : Nat) (ls : List Label) :
 
 /-- `L: for-of(3 items) { try { try { break L } finally { log 1 } } finally { log 2 } }` -/
 def ex1 : Stmt :=
-  .lbl 7 (.forOf ⟨1, 3, none, .ok⟩
+  .lbl 7 (.forOf ⟨1, 3, none, .ok, false⟩
     (.tryS 1 (.tryS 2 (.brk (some 7)) false .skip true (.log 1)) false .skip true (.log 2)))
 
 example : refSem ex1 =
     (.normal (some 0), [.itOpen 1, .itNext 1, .tryE 1, .tryE 2, .finE 2, .log 1, .finE 1, .log 2, .itRet 1]) := by
   decide
 
-example : (refSem (.forOf ⟨1, 3, none, .ok⟩ (.tryS 1 .fatal true (.log 1) true (.log 2)))).2
+example : (refSem (.forOf ⟨1, 3, none, .ok, false⟩ (.tryS 1 .fatal true (.log 1) true (.log 2)))).2
     = [.itOpen 1, .itNext 1, .tryE 1, .fatal] := by decide
 
 end GojaModel.C08
